@@ -79,6 +79,15 @@ def run(prog: Program, rep: Report, tier: str) -> None:
     node_loops = [l for l in loops if isinstance(l.iter, ast.Call) and callee_last(l.iter) == 'nodes' and norm(l.iter.func.value) == R]
     edge_loops = [l for l in loops if isinstance(l.iter, ast.Call) and callee_last(l.iter) == 'edges' and norm(l.iter.func.value) == R]
     rep.floor('C15-D3 loops', len(node_loops) + len(edge_loops), 2)
+    # once the edge is gone every path to the return runs both copy loops: an early exit in between ("nothing to copy" judged by the
+    # nodes alone, say) leaves the host without the replacement's edges
+    for kind, lps in (('nodes', node_loops), ('edges', edge_loops)):
+        hdrs = {cfg.node_of(l) for l in lps}
+        for r in rem:
+            okl, witl = cfg.all_paths_pass(r, lambda n: n in hdrs) if hdrs else (False, None)
+            rep.ob('C15-D3 copied-completely', f.fq(), f"after {G}.remove_edge({E}) every path runs the loop over {R}.{kind}()", f.loc(cfg.nodes[r].stmt), okl,
+                   'no return between the removal and the copy' if okl else
+                   'a path returns after the edge was removed without copying the ' + kind + ' of the replacement: ' + ' -> '.join(cfg.describe(x).split(':', 1)[0] for x in (witl or [])[-4:]))
     for lp in node_loops:
         hdr = cfg.node_of(lp)
         v = norm(lp.target)
